@@ -376,7 +376,12 @@ def build_graph(ctx, source_kwargs):
         elif op == 'pluck':
             s = ups[0].pluck(n['pick'])
         elif op == 'collect':
-            s = ups[0].collect()
+            if n.get('cache_maxlen'):
+                # a caller-supplied (empty) bounded cache: the last k elements since the previous flush
+                from collections import deque as _dq
+                s = ups[0].collect(cache=_dq(maxlen=n['cache_maxlen']))
+            else:
+                s = ups[0].collect()
         elif op == 'union':
             s = ups[0].union(*ups[1:])
         elif op == 'zip':
@@ -420,7 +425,14 @@ def build_graph(ctx, source_kwargs):
             if kind == 'emit_into':
                 # the idiom source.sink(other.emit): a consumer that pushes into another entry point
                 target = N[n['target']]
-                f = ctx.sync_fn(nid, lambda x, _t=target: _t.emit(x), kind='sink')
+                if n.get('back'):
+                    # feedback: one follow-up element per original element, into an entry point above this consumer
+                    def back(x, _t=target):
+                        if isinstance(x, int) and x < 5 * fns.TOKEN_BASE:
+                            return _t.emit(5 * fns.TOKEN_BASE + (x - fns.TOKEN_BASE))
+                    f = ctx.sync_fn(nid, back, kind='sink')
+                else:
+                    f = ctx.sync_fn(nid, lambda x, _t=target: _t.emit(x), kind='sink')
             elif kind == 'sync' and n.get('attach_on_first'):
                 # lazy wiring: on its first element this consumer attaches one more branch to its own upstream,
                 # i.e. while that upstream is in the middle of handing the element to its branches
